@@ -35,20 +35,22 @@ using namespace c12;
 // buffer (an overrun still faults); everything smaller goes to malloc, i.e. stays fully instrumented by ASan.
 // An array allocation above 2 GiB (the library's own TMCG_OPENPGP_MAX_ALLOC) counts as unbounded allocation.
 static const size_t GIANT_MIN = (size_t)64 << 20, GIANT_MAX = (size_t)2048 << 20;
-static struct { void *user, *base; size_t len; } giant_tab[32];
+static struct { void *user, *base; size_t len; bool busy; } giant_tab[32];
 static void *giant_alloc(size_t n) {
 	if (n > GIANT_MAX) { fprintf(stderr, "C12-ALLOC-LIMIT: array allocation of %zu bytes requested\n", n); abort(); }
 	size_t pg = 4096, body = (n + pg - 1) / pg * pg, len = body + pg;
+	// mappings are kept and reused (ASan intercepts mmap/munmap and touches the shadow of the whole range each time)
+	for (auto &g : giant_tab) if (g.base && !g.busy && g.len == len) { g.busy = true; g.user = (char*)g.base + ((body - n) & ~(size_t)15); return g.user; }
 	char *m = (char*)mmap(0, len, PROT_READ | PROT_WRITE, MAP_PRIVATE | MAP_ANONYMOUS | MAP_NORESERVE, -1, 0);
 	if (m == MAP_FAILED) throw std::bad_alloc();
 	mprotect(m + body, pg, PROT_NONE);
 	char *u = m + ((body - n) & ~(size_t)15);
-	for (auto &g : giant_tab) if (!g.user) { g.user = u; g.base = m; g.len = len; return u; }
+	for (auto &g : giant_tab) if (!g.base) { g.user = u; g.base = m; g.len = len; g.busy = true; return u; }
 	munmap(m, len); throw std::bad_alloc();
 }
 static bool giant_free(void *p) {
 	if (!p) return false;
-	for (auto &g : giant_tab) if (g.user == p) { munmap(g.base, g.len); g.user = 0; return true; }
+	for (auto &g : giant_tab) if (g.busy && g.user == p) { g.busy = false; g.user = 0; return true; }
 	return false;
 }
 void *operator new[](size_t n) { if (n >= GIANT_MIN) return giant_alloc(n); void *p = malloc(n ? n : 1); if (!p) throw std::bad_alloc(); return p; }
@@ -243,63 +245,174 @@ static void setup_keys() {
 // ---- stream constructors -----------------------------------------------------------------------------------------------
 template<class F> static void add_ctor(const std::string &name, const std::string &valid, size_t lead, F f) {
 	Target &t = add("ctor-" + name, 't', "\n", lead, 700, [f](const std::string &s) { std::istringstream is(s); return std::string(f(is)); });
-	t.valid = { valid };
+	t.valid = { valid + "2\n0\n-1\n" };   // lines behind the description: untrusted elements offered to CheckElement / TestMembership
 	// explicit zero / one / negative / short-prime classes on the first two lines (p and q)
 	std::vector<std::string> lines; { std::istringstream is(valid); std::string l; while (std::getline(is, l)) lines.push_back(l); }
-	auto join = [&](std::vector<std::string> v) { std::string r; for (auto &l : v) r += l + "\n"; return r; };
+	auto join = [&](std::vector<std::string> v) { std::string r; for (auto &l : v) r += l + "\n"; return r + "2\n3\n0\n"; };
 	for (size_t i = 0; i < lines.size() && i < 4; i++) for (const char *v : { "0", "1", "-1", "2", "3", "z", "1z", "-z", "" }) {
 		std::vector<std::string> l2 = lines; l2[i] = v; t.pinned.push_back({ join(l2), "line" + std::to_string(i) + "=" + v });
 	}
 	{ std::vector<std::string> l2 = lines; if (l2.size() >= 2) { l2[0] = "0"; l2[1] = "0"; t.pinned.push_back({ join(l2), "p=q=0" }); } }
 	{ std::vector<std::string> l2 = lines; if (l2.size() >= 2) { l2[0] = "0"; l2[1] = "5"; t.pinned.push_back({ join(l2), "p=0,q=5" }); } }
+	// two and three simultaneous corruptions among the first five lines: one value negated, another one zero / doubled /
+	// replaced by the first line (the modulus) / negated as well, optionally a third one zero
+	auto dbl = [](const std::string &x) { mpz_t z; mpz_init(z); std::string r = x; if (mpz_set_str(z, x.c_str(), TMCG_MPZ_IO_BASE) == 0) { mpz_mul_2exp(z, z, 1); r = str(z); } mpz_clear(z); return r; };
+	auto neg = [](const std::string &x) { return (!x.empty() && x[0] == '-') ? x.substr(1) : "-" + x; };
+	size_t nl = std::min(lines.size(), (size_t)5);
+	for (size_t i = 0; i < nl; i++) for (size_t j = 0; j < nl; j++) if (i != j) {
+		for (int op = 0; op < 4; op++) {
+			std::vector<std::string> l2 = lines; l2[i] = neg(lines[i]);
+			l2[j] = op == 0 ? std::string("0") : op == 1 ? dbl(lines[j]) : op == 2 ? lines[0] : neg(lines[j]);
+			t.pinned.push_back({ join(l2), "neg" + std::to_string(i) + "+op" + std::to_string(op) + "@" + std::to_string(j) });
+			if (op == 1) for (size_t k = 0; k < nl; k++) if (k != i && k != j) { std::vector<std::string> l3 = l2; l3[k] = "0"; t.pinned.push_back({ join(l3), "neg" + std::to_string(i) + "+dbl" + std::to_string(j) + "+zero" + std::to_string(k) }); break; }
+		}
+	}
 }
+
+// elements offered to CheckElement / TestMembership after a constructor whose CheckGroup succeeded: the remaining lines of
+// the stream (untrusted) and boundary values around the modulus, small numbers sharing factors with a composite modulus
+struct Elems {
+	std::vector<mpz_ptr> v;
+	void push(mpz_srcptr x) { mpz_ptr n = new mpz_t(); mpz_init_set(n, x); v.push_back(n); }
+	Elems(std::istream &is, mpz_srcptr p) {
+		std::string l; mpz_t z; mpz_init(z); size_t n = 0;
+		while (n++ < 12 && std::getline(is, l)) if (l.size() < 5000 && mpz_set_str(z, l.c_str(), TMCG_MPZ_IO_BASE) == 0) push(z);
+		for (long c : { 0L, 1L, 2L, 3L, 5L, 6L, 7L, 10L, 15L, -1L, -2L }) { mpz_set_si(z, c); push(z); }
+		mpz_set(z, p); push(z); mpz_sub_ui(z, p, 1); push(z); mpz_add_ui(z, p, 1); push(z); mpz_mul_2exp(z, p, 1); push(z); mpz_neg(z, p); push(z);
+		mpz_clear(z);
+	}
+	~Elems() { for (auto x : v) { mpz_clear(x); delete [] x; } }
+};
+template<class O> static void probe_elements(const O &o, mpz_srcptr p, std::istream &is) { Elems E(is, p); for (auto e : E.v) o.CheckElement(e); }
 static bool smallp(mpz_srcptr p) { return mpz_sizeinbase(p, 2) <= 2100; }
 
 static void setup_ctors() {
 	std::ostringstream g; C.vtmf->PublishGroup(g);
-	add_ctor("vtmf", g.str(), 4, [](std::istream &is) { BarnettSmartVTMF_dlog v(is, FS, GS); bool ok = smallp(v.p) && v.CheckGroup(); if (ok) { mpz_t x; mpz_init(x); v.RandomElement(x); v.IndexElement(x, 3); mpz_clear(x); } return res(ok); });
+	add_ctor("vtmf", g.str(), 4, [](std::istream &is) { BarnettSmartVTMF_dlog v(is, FS, GS); bool ok = smallp(v.p) && v.CheckGroup(); if (ok) { mpz_t x; mpz_init(x); v.RandomElement(x); v.IndexElement(x, 3); mpz_clear(x); probe_elements(v, v.p, is); } return res(ok); });
 	static BarnettSmartVTMF_dlog *cg = new BarnettSmartVTMF_dlog(FS, GS, true); cg->KeyGenerationProtocol_GenerateKey();
 	std::ostringstream gc; cg->PublishGroup(gc);
-	add_ctor("vtmf-canonical", gc.str(), 4, [](std::istream &is) { BarnettSmartVTMF_dlog v(is, FS, GS, true); return res(smallp(v.p) && v.CheckGroup()); });
+	add_ctor("vtmf-canonical", gc.str(), 4, [](std::istream &is) { BarnettSmartVTMF_dlog v(is, FS, GS, true); bool ok = smallp(v.p) && v.CheckGroup(); if (ok) probe_elements(v, v.p, is); return res(ok); });
 	{
 		BarnettSmartVTMF_dlog_GroupQR qr(QFS, QGS); std::ostringstream o; qr.PublishGroup(o);
-		add_ctor("vtmf-groupqr", o.str(), 4, [](std::istream &is) { BarnettSmartVTMF_dlog_GroupQR v(is, QFS, QGS); return res(smallp(v.p) && v.CheckGroup()); });
+		add_ctor("vtmf-groupqr", o.str(), 4, [](std::istream &is) { BarnettSmartVTMF_dlog_GroupQR v(is, QFS, QGS); bool ok = smallp(v.p) && v.CheckGroup(); if (ok) probe_elements(v, v.p, is); return res(ok); });
 	}
 	{
 		PedersenCommitmentScheme com(3, C.vtmf->p, C.vtmf->q, C.vtmf->k, C.vtmf->h, FS, GS); std::ostringstream o; com.PublishGroup(o);
-		add_ctor("pedersen-com", o.str(), 5, [](std::istream &is) { PedersenCommitmentScheme v(3, is, FS, GS); return res(smallp(v.p) && v.CheckGroup()); });
-		add_ctor("groth-skc", o.str(), 5, [](std::istream &is) { GrothSKC v(3, is, 64, FS, GS); return res(smallp(v.com->p) && v.CheckGroup()); });
+		add_ctor("pedersen-com", o.str(), 5, [](std::istream &is) { PedersenCommitmentScheme v(3, is, FS, GS); bool ok = smallp(v.p) && v.CheckGroup();
+			if (ok) { Elems E(is, v.p); for (auto e : E.v) v.TestMembership(e); std::vector<mpz_ptr> m(E.v.begin(), E.v.begin() + 3);
+				for (size_t i = 0; i + 1 < E.v.size(); i++) { try { v.Verify(E.v[i], E.v[i + 1], m); } catch (std::exception &) {} } }
+			return res(ok); });
+		add_ctor("groth-skc", o.str(), 5, [](std::istream &is) { GrothSKC v(3, is, 64, FS, GS); bool ok = smallp(v.com->p) && v.CheckGroup(); if (ok) { Elems E(is, v.com->p); for (auto e : E.v) v.com->TestMembership(e); } return res(ok); });
 	}
 	{
 		std::ostringstream o; C.vsshe->PublishGroup(o);
-		add_ctor("groth-vsshe", o.str(), 6, [](std::istream &is) { GrothVSSHE v(NC, is, 64, FS, GS); return res(smallp(v.p) && v.CheckGroup()); });
+		add_ctor("groth-vsshe", o.str(), 6, [](std::istream &is) { GrothVSSHE v(NC, is, 64, FS, GS); bool ok = smallp(v.p) && v.CheckGroup(); if (ok) { Elems E(is, v.p); for (auto e : E.v) v.com->TestMembership(e); } return res(ok); });
 	}
 	{
 		std::ostringstream o; C.vrhe->PublishGroup(o);
-		add_ctor("hoogh-vrhe", o.str(), 4, [](std::istream &is) { HooghSchoenmakersSkoricVillegasVRHE v(is, FS, GS); return res(smallp(v.p) && v.CheckGroup()); });
+		add_ctor("hoogh-vrhe", o.str(), 4, [](std::istream &is) { HooghSchoenmakersSkoricVillegasVRHE v(is, FS, GS); bool ok = smallp(v.p) && v.CheckGroup(); if (ok) probe_elements(v, v.p, is); return res(ok); });
 	}
 	{
 		NaorPinkasEOTP ot(FS, GS); std::ostringstream o; ot.PublishGroup(o);
-		add_ctor("naorpinkas-eotp", o.str(), 3, [](std::istream &is) { NaorPinkasEOTP v(is, FS, GS); return res(smallp(v.p) && v.CheckGroup()); });
+		add_ctor("naorpinkas-eotp", o.str(), 3, [](std::istream &is) { NaorPinkasEOTP v(is, FS, GS); bool ok = smallp(v.p) && v.CheckGroup(); if (ok) probe_elements(v, v.p, is); return res(ok); });
 	}
 	{
 		PedersenTrapdoorCommitmentScheme tc(FS, GS); std::ostringstream o2; tc.PublishGroup(o2);
-		add_ctor("pedersen-tc", o2.str(), 4, [](std::istream &is) { PedersenTrapdoorCommitmentScheme v(is, FS, GS); return res(smallp(v.p) && v.CheckGroup()); });
+		add_ctor("pedersen-tc", o2.str(), 4, [](std::istream &is) { PedersenTrapdoorCommitmentScheme v(is, FS, GS); bool ok = smallp(v.p) && v.CheckGroup(); if (ok) { Elems E(is, v.p); for (size_t i = 0; i + 2 < E.v.size(); i++) v.Verify(E.v[i], E.v[i + 1], E.v[i + 2]); } return res(ok); });
 	}
 	{
 		PedersenVSS vss(3, 1, 0, cg->p, cg->q, cg->g, cg->h, FS, GS, false); std::ostringstream o; vss.PublishState(o);
-		add_ctor("pedersen-vss", o.str(), 8, [](std::istream &is) { PedersenVSS v(is, FS, GS, false); return res(smallp(v.p) && v.CheckGroup()); });
+		add_ctor("pedersen-vss", o.str(), 8, [](std::istream &is) { PedersenVSS v(is, FS, GS, false); bool ok = smallp(v.p) && v.CheckGroup(); if (ok) probe_elements(v, v.p, is); return res(ok); });
 		GennaroJareckiKrawczykRabinDKG dkg(3, 1, 0, C.vtmf->p, C.vtmf->q, C.vtmf->g, C.vtmf->h, FS, GS, false, false); std::ostringstream o2; dkg.PublishState(o2);
-		add_ctor("gjkr-dkg", o2.str(), 8, [](std::istream &is) { GennaroJareckiKrawczykRabinDKG v(is, FS, GS, false, false); bool ok = smallp(v.p) && v.CheckGroup(); std::ostringstream s; v.PublishState(s); return res(ok); });
+		add_ctor("gjkr-dkg", o2.str(), 8, [](std::istream &is) { GennaroJareckiKrawczykRabinDKG v(is, FS, GS, false, false); bool ok = smallp(v.p) && v.CheckGroup(); std::ostringstream s; v.PublishState(s);
+			if (ok) { v.CheckKey(); for (size_t i = 0; i < v.n && i < 8; i++) v.CheckKey(i); probe_elements(v, v.p, is); } return res(ok); });
 		CanettiGennaroJareckiKrawczykRabinRVSS rvss(3, 1, 0, 1, C.vtmf->p, C.vtmf->q, C.vtmf->g, C.vtmf->h, FS, GS, false, false); std::ostringstream o3; rvss.PublishState(o3);
-		add_ctor("cgjkr-rvss", o3.str(), 9, [](std::istream &is) { CanettiGennaroJareckiKrawczykRabinRVSS v(is, FS, GS, false, false); bool ok = smallp(v.p) && v.CheckGroup(); std::ostringstream s; v.PublishState(s); return res(ok); });
+		add_ctor("cgjkr-rvss", o3.str(), 9, [](std::istream &is) { CanettiGennaroJareckiKrawczykRabinRVSS v(is, FS, GS, false, false); bool ok = smallp(v.p) && v.CheckGroup(); std::ostringstream s; v.PublishState(s); if (ok) probe_elements(v, v.p, is); return res(ok); });
 		CanettiGennaroJareckiKrawczykRabinZVSS zvss(3, 1, 0, 1, C.vtmf->p, C.vtmf->q, C.vtmf->g, C.vtmf->h, FS, GS, false, false); std::ostringstream o4; zvss.PublishState(o4);
-		add_ctor("cgjkr-zvss", o4.str(), 9, [](std::istream &is) { CanettiGennaroJareckiKrawczykRabinZVSS v(is, FS, GS, false, false); bool ok = smallp(v.p) && v.CheckGroup(); std::ostringstream s; v.PublishState(s); return res(ok); });
+		add_ctor("cgjkr-zvss", o4.str(), 9, [](std::istream &is) { CanettiGennaroJareckiKrawczykRabinZVSS v(is, FS, GS, false, false); bool ok = smallp(v.p) && v.CheckGroup(); std::ostringstream s; v.PublishState(s); if (ok) probe_elements(v, v.p, is); return res(ok); });
 		CanettiGennaroJareckiKrawczykRabinDKG cdkg(3, 1, 0, C.vtmf->p, C.vtmf->q, C.vtmf->g, C.vtmf->h, FS, GS, false, false); std::ostringstream o5; cdkg.PublishState(o5);
-		add_ctor("cgjkr-dkg", o5.str(), 8, [](std::istream &is) { CanettiGennaroJareckiKrawczykRabinDKG v(is, FS, GS, false, false); bool ok = smallp(v.p) && v.CheckGroup(); std::ostringstream s; v.PublishState(s); return res(ok); });
+		add_ctor("cgjkr-dkg", o5.str(), 8, [](std::istream &is) { CanettiGennaroJareckiKrawczykRabinDKG v(is, FS, GS, false, false); bool ok = smallp(v.p) && v.CheckGroup(); std::ostringstream s; v.PublishState(s); if (ok) probe_elements(v, v.p, is); return res(ok); });
 		CanettiGennaroJareckiKrawczykRabinDSS dss(3, 1, 0, C.vtmf->p, C.vtmf->q, C.vtmf->g, C.vtmf->h, FS, GS, false, false); std::ostringstream o6; dss.PublishState(o6);
-		add_ctor("cgjkr-dss", o6.str(), 8, [](std::istream &is) { CanettiGennaroJareckiKrawczykRabinDSS v(is, FS, GS, false, false); bool ok = smallp(v.p) && v.CheckGroup(); std::ostringstream s; v.PublishState(s); return res(ok); });
+		add_ctor("cgjkr-dss", o6.str(), 8, [](std::istream &is) { CanettiGennaroJareckiKrawczykRabinDSS v(is, FS, GS, false, false); bool ok = smallp(v.p) && v.CheckGroup(); std::ostringstream s; v.PublishState(s);
+			if (ok) { Elems E(is, v.p); for (auto e : E.v) v.CheckElement(e); for (size_t i = 0; i + 2 < E.v.size(); i++) v.Verify(E.v[i], E.v[i + 1], E.v[i + 2]); } return res(ok); });
 	}
+}
+
+// threshold Schnorr signatures (new-TSch): CRS, public key and signature all from the stream; and a trusted instance
+static GennaroJareckiKrawczykRabinNTS *trusted_nts = 0;
+static void setup_nts() {
+	BarnettSmartVTMF_dlog *v = C.vtmf;
+	mpz_t x, y, k, r, c, sg, m; mpz_init(x); mpz_init(y); mpz_init(k); mpz_init(r); mpz_init(c); mpz_init(sg); mpz_init_set_ui(m, 424242);
+	tmcg_mpz_srandomm(x, v->q); mpz_powm(y, v->g, x, v->p); tmcg_mpz_srandomm(k, v->q); mpz_powm(r, v->g, k, v->p);
+	tmcg_mpz_shash(c, 2, m, r); mpz_mul(sg, c, x); mpz_add(sg, sg, k); mpz_mod(sg, sg, v->q);
+	trusted_nts = new GennaroJareckiKrawczykRabinNTS(3, 1, 0, v->p, v->q, v->g, v->h, FS, GS, false, false); mpz_set(trusted_nts->y, y);
+	std::string sig = str(m) + "\n" + str(c) + "\n" + str(sg) + "\n";
+	add("nts-verify", 't', "\n", 3, 700, [](const std::string &s) {
+		std::istringstream is(s); mpz_t a, b, d; mpz_init(a); mpz_init(b); mpz_init(d); bool ok = false;
+		try { is >> a >> b >> d; ok = trusted_nts->Verify(a, b, d); } catch (...) { mpz_clear(a); mpz_clear(b); mpz_clear(d); throw; }
+		mpz_clear(a); mpz_clear(b); mpz_clear(d); return std::string(res(ok)); }).valid = { sig };
+	std::string crs = str(v->p) + "\n" + str(v->q) + "\n" + str(v->g) + "\n" + str(v->h) + "\n" + str(y) + "\n";
+	add_ctor("gjkr-nts", crs + sig, 5, [](std::istream &is) {
+		mpz_t p, q, g, h, y; mpz_init(p); mpz_init(q); mpz_init(g); mpz_init(h); mpz_init(y); bool ok = false;
+		try {
+			is >> p >> q >> g >> h >> y;
+			if (mpz_sizeinbase(p, 2) <= 2100 && mpz_sizeinbase(q, 2) <= 2100) {
+				GennaroJareckiKrawczykRabinNTS n(3, 1, 0, p, q, g, h, FS, GS, false, false);
+				ok = n.CheckGroup();
+				if (ok) { if (mpz_cmp_ui(y, 0) > 0 && mpz_cmp(y, p) < 0) { mpz_t t; mpz_init(t); mpz_powm(t, y, q, p); if (mpz_cmp_ui(t, 1)) mpz_powm_ui(y, g, 7, p); mpz_clear(t); } else mpz_powm_ui(y, g, 7, p); mpz_set(n.y, y); }   // the key itself is not wire data: keep it a group element
+				if (ok) { Elems E(is, p); ok = E.v.size() > 2 && n.Verify(E.v[0], E.v[1], E.v[2]); for (size_t i = 0; i + 2 < E.v.size(); i++) n.Verify(E.v[i], E.v[i + 1], E.v[i + 2]); }
+			}
+		} catch (...) { mpz_clear(p); mpz_clear(q); mpz_clear(g); mpz_clear(h); mpz_clear(y); throw; }
+		mpz_clear(p); mpz_clear(q); mpz_clear(g); mpz_clear(h); mpz_clear(y); return res(ok); });
+	mpz_clear(x); mpz_clear(y); mpz_clear(k); mpz_clear(r); mpz_clear(c); mpz_clear(sg); mpz_clear(m);
+}
+
+// a whole VTMF session from one untrusted stream: group, the other party's key with its NIZK, then statements and proofs
+static void setup_vtmf_session() {
+	BarnettSmartVTMF_dlog *B = C.vtmfB;
+	std::ostringstream o; o << C.vtmf_group << C.vtmf_key2;
+	mpz_t alpha, x, y, m, c1, c2, r, d1, d2; mpz_init(alpha); mpz_init(x); mpz_init(y); mpz_init(m); mpz_init(c1); mpz_init(c2); mpz_init(r); mpz_init(d1); mpz_init(d2);
+	// the receiver below has only B's key registered, so its h equals B's h_i: build the proofs with a one-party instance of B
+	std::istringstream gi(C.vtmf_group); BarnettSmartVTMF_dlog S(gi, FS, GS); mpz_set(S.x_i, B->x_i); mpz_set(S.h_i, B->h_i); mpz_set(S.h_i_fp, B->h_i_fp); mpz_set(S.h, B->h_i); S.KeyGenerationProtocol_Finalize();
+	tmcg_mpz_srandomm(alpha, S.q); mpz_powm(x, S.g, alpha, S.p); mpz_powm(y, S.h, alpha, S.p);
+	o << x << std::endl << y << std::endl; S.CP_Prove(x, y, S.g, S.h, alpha, o);
+	o << x << std::endl << y << std::endl; S.OR_ProveFirst(x, y, S.g, S.h, alpha, o);
+	S.IndexElement(m, 5); S.VerifiableMaskingProtocol_Mask(m, c1, c2, r);
+	o << m << std::endl << c1 << std::endl << c2 << std::endl; S.VerifiableMaskingProtocol_Prove(m, c1, c2, r, o);
+	S.VerifiableRemaskingProtocol_Mask(c1, c2, d1, d2, r);
+	o << d1 << std::endl << d2 << std::endl; S.VerifiableRemaskingProtocol_Prove(c1, c2, d1, d2, r, o);
+	S.VerifiableDecryptionProtocol_Prove(c1, o);
+	Target &t = add("vtmf-session", 't', "\n", 12, 700, [](const std::string &s) {
+		std::istringstream is(s); BarnettSmartVTMF_dlog v(is, FS, GS);
+		if (!smallp(v.p) || !v.CheckGroup()) return std::string("reject");
+		if (!v.KeyGenerationProtocol_UpdateKey(is)) return std::string("reject-key");
+		v.KeyGenerationProtocol_Finalize();
+		mpz_t a[9]; for (auto &z : a) mpz_init(z); unsigned okc = 0;
+		try {
+			// CP_Verify does not test its statement (x, y) itself: like every caller inside the library, test membership first
+			// (with x = 0 mod p a negative challenge from the wire would make mpz_powm(x, c, p) divide by zero: docs/C12.md O4)
+			is >> a[0] >> a[1]; if (v.CheckElement(a[0]) && v.CheckElement(a[1])) okc += v.CP_Verify(a[0], a[1], v.g, v.h, is); else { is >> a[7] >> a[8]; }
+			is >> a[0] >> a[1]; okc += v.OR_Verify(a[0], a[1], v.g, v.h, is);
+			is >> a[2] >> a[3] >> a[4]; okc += v.VerifiableMaskingProtocol_Verify(a[2], a[3], a[4], is);
+			is >> a[5] >> a[6]; okc += v.VerifiableRemaskingProtocol_Verify(a[3], a[4], a[5], a[6], is);
+			if (v.CheckElement(a[3])) {   // Verify_Initialize asserts that the caller checked c_1 (API contract, not wire data)
+				v.VerifiableDecryptionProtocol_Verify_Initialize(a[3]);
+				if (v.VerifiableDecryptionProtocol_Verify_Update(a[3], is)) { okc++; v.VerifiableDecryptionProtocol_Verify_Finalize(a[4], a[7]); }
+			}
+			for (int i = 0; i < 7; i++) v.CheckElement(a[i]);
+		} catch (...) { for (auto &z : a) mpz_clear(z); throw; }
+		for (auto &z : a) mpz_clear(z);
+		return std::string(okc == 5 ? "accept" : "partial" + std::to_string(okc)); });
+	t.valid = { o.str() };
+	// the group lines corrupted in combination, proofs left intact
+	std::vector<std::string> lines; { std::istringstream is(o.str()); std::string l; while (std::getline(is, l)) lines.push_back(l); }
+	auto join = [&](const std::vector<std::string> &v) { std::string r; for (auto &l : v) r += l + "\n"; return r; };
+	auto neg = [](const std::string &x) { return (!x.empty() && x[0] == '-') ? x.substr(1) : "-" + x; };
+	for (size_t i = 0; i < 7 && i < lines.size(); i++) for (size_t j = 0; j < 14 && j < lines.size(); j++) if (i != j) for (int op = 0; op < 3; op++) {
+		std::vector<std::string> l2 = lines; l2[i] = neg(lines[i]); l2[j] = op == 0 ? std::string("0") : op == 1 ? lines[0] : neg(lines[j]);
+		t.pinned.push_back({ join(l2), "neg" + std::to_string(i) + "+op" + std::to_string(op) + "@" + std::to_string(j) });
+	}
+	mpz_clear(alpha); mpz_clear(x); mpz_clear(y); mpz_clear(m); mpz_clear(c1); mpz_clear(c2); mpz_clear(r); mpz_clear(d1); mpz_clear(d2);
 }
 
 // ---- VTMF proofs (non-interactive: prover output = verifier input) -------------------------------------------------------
@@ -340,7 +453,7 @@ static void setup_vtmf_proofs() {
 	  add("vtmf-decrypt-verify", 't', "\n", 4, 700, [](const std::string &s) {
 		BarnettSmartVTMF_dlog *w = fresh_vtmf(); w->VerifiableDecryptionProtocol_Verify_Initialize(C.d);
 		std::istringstream is(s); bool ok = w->VerifiableDecryptionProtocol_Verify_Update(C.d, is);
-		mpz_t mm; mpz_init(mm); w->VerifiableDecryptionProtocol_Verify_Finalize(C.e, mm); mpz_clear(mm); delete w; return std::string(res(ok)); }).valid = { o.str() }; }
+		if (ok) { mpz_t mm; mpz_init(mm); w->VerifiableDecryptionProtocol_Verify_Finalize(C.e, mm); mpz_clear(mm); } delete w; return std::string(res(ok)); }).valid = { o.str() }; }
 	// interactive proof of knowledge of the key
 	{
 		bool acc = false;
@@ -349,6 +462,15 @@ static void setup_vtmf_proofs() {
 		Target &t = add("vtmf-verifykey-interactive", 't', "\n", 4, 700, [](const std::string &s) {
 			reseed_lib(777); std::istringstream is(s); std::ostringstream os; return std::string(res(C.vtmf->KeyGenerationProtocol_VerifyKey_interactive(C.vtmfB->h_i, is, os))); });
 		t.valid = { tr }; if (!acc) t.expect_accept = false;
+	}
+	{   // public-coin variant: the challenge comes from a two-party coin flip (JareckiLysyanskayaEDCF) over the same stream
+		static JareckiLysyanskayaEDCF *edcf = new JareckiLysyanskayaEDCF(2, 0, C.vtmf->p, C.vtmf->q, C.vtmf->g, C.vtmf->h, FS, GS);
+		bool acc = false;
+		std::string tr = record([](std::istream &in, std::ostream &out) { C.vtmfB->KeyGenerationProtocol_ProveKey_interactive_publiccoin(edcf, in, out); },
+			[](std::istream &in, std::ostream &out) { return C.vtmf->KeyGenerationProtocol_VerifyKey_interactive_publiccoin(C.vtmfB->h_i, edcf, in, out); }, 778, acc);
+		Target &t = add("vtmf-verifykey-publiccoin", 't', "\n", 6, 700, [](const std::string &s) {
+			reseed_lib(778); std::istringstream is(s); std::ostringstream os; return std::string(res(C.vtmf->KeyGenerationProtocol_VerifyKey_interactive_publiccoin(C.vtmfB->h_i, edcf, is, os))); });
+		t.valid = { tr }; if (!acc) { t.expect_accept = false; fprintf(stderr, "NOTE vtmf-verifykey-publiccoin: recorded honest run was not accepted\n"); }
 	}
 	mpz_clear(alpha); mpz_clear(x); mpz_clear(y); mpz_clear(m); mpz_clear(c1); mpz_clear(c2); mpz_clear(r); mpz_clear(d1); mpz_clear(d2);
 }
@@ -664,7 +786,7 @@ int main(int argc, char **argv) {
 		setup_keys();
 	} else {
 		setup_context();
-		setup_importers(); setup_keys(); setup_ctors(); setup_vtmf_proofs(); setup_game_verifiers(); setup_pgp();
+		setup_importers(); setup_keys(); setup_ctors(); setup_nts(); setup_vtmf_session(); setup_vtmf_proofs(); setup_game_verifiers(); setup_pgp();
 	}
 	reseed_lib(A.seed ^ 0xABCDEF0123ULL);
 	if (getenv("C12_DUMPVALID")) { for (auto &t : T) for (size_t v = 0; v < t.valid.size(); v++) { std::ofstream f((std::string(getenv("C12_DUMPVALID")) + "/" + t.name + "." + std::to_string(v)).c_str(), std::ios::binary); f.write(t.valid[v].data(), t.valid[v].size()); } return 0; }
@@ -716,7 +838,7 @@ int main(int argc, char **argv) {
 			std::vector<Mut> ms;
 			if (t.fmt == 'p') pgp_mutations(t.valid[v], g, th ? 400 : 60, th ? 300 : 40, ms);
 			else {
-				text_mutations(t.valid[v], t.delims, g, t.lead, th ? 40 : 8, th ? 300 : 48, th ? 200 : 30, t.hugechars, ms);
+				text_mutations(t.valid[v], t.delims, g, t.lead, th ? 40 : 8, th ? 300 : 48, th ? 200 : 30, t.hugechars, ms, th ? 400 : 60);
 				if (t.fmt == 'a') {   // armored: also mutate the binary payload and re-armor it
 					tmcg_openpgp_octets_t o; tmcg_openpgp_armor_t ty = R::ArmorDecode(t.valid[v], o);
 					std::vector<Mut> bm; pgp_mutations(sto(o), g, 20, 20, bm); sample(bm, g, th ? 300 : 40);
